@@ -39,6 +39,8 @@ P_ContentOnce == /\ R.g4 = [i \in 1..Len(objs) |-> i]
                  /\ \A i \in 1..Len(objs) : Count(R.g3, i) <= 1
                  /\ \A i \in 1..Len(objs) : (R.pts[PtOf(i)].c3 = i) <=> Count(R.g3, i) = 1
 \* a neighbourhood only ever returns stored objects, each once
+\* a grid re-used through update_dimensions (as the contact models re-use theirs at every iteration) answers like a fresh one
+P_Reuse == R.reuse_same
 P_NbhdSound == \A j \in Pts : \A i \in ToSet(R.pts[j].n4) : i \in 1..Len(objs) /\ Count(R.pts[j].n4, i) = 1
 
 \* ---- the design: exact agreement with Grid
